@@ -37,13 +37,17 @@ type fault struct {
 }
 
 type Case struct {
-	N         int
-	Hash      int
-	Discovery bool
-	Seg       int64
-	Faults    []fault // one faulty sync each, then an honest sync
-	Entries   bool    // entries chain instead of ads
-	Trusted   bool    // the destination link system has TrustedStorage set (local reads are not re-hashed; fetched bytes still must be)
+	N          int
+	Hash       int
+	Discovery  bool
+	Seg        int64
+	Faults     []fault // one faulty sync each, then an honest sync
+	Entries    bool    // entries chain instead of ads
+	Trusted    bool    // the destination link system has TrustedStorage set (local reads are not re-hashed; fetched bytes still must be)
+	StoreOrd   int     // >= 0: during the first sync the destination store's StoreOrd-th writer fails after accepting StoreAfter bytes (a full disk); the publisher is honest
+	StoreAfter int
+	Evict      []int // after the honest sync: the consumer deletes these blocks (positions) from its store, as indexers do once a block is processed,
+	EvictFlt   fault // and a faulty re-sync of the whole chain follows (fault at a request ordinal among the evicted blocks), then an honest one
 }
 
 func genFault(t *rapid.T, n int) fault {
@@ -63,6 +67,21 @@ func genCase(t *rapid.T) Case {
 	nf := rapid.IntRange(1, 3).Draw(t, "nfaults")
 	for i := 0; i < nf; i++ {
 		c.Faults = append(c.Faults, genFault(t, c.N))
+	}
+	c.StoreOrd = -1
+	if rapid.IntRange(0, 3).Draw(t, "storefault") == 1 {
+		c.StoreOrd, c.StoreAfter = rapid.IntRange(0, c.N-1).Draw(t, "storeord"), rapid.IntRange(0, 400).Draw(t, "storeafter")
+	}
+	if rapid.IntRange(0, 2).Draw(t, "evict") == 1 {
+		for i := 0; i < c.N; i++ {
+			if rapid.IntRange(0, 2).Draw(t, "evicted") > 0 {
+				c.Evict = append(c.Evict, i)
+			}
+		}
+		if len(c.Evict) > 0 {
+			c.EvictFlt = genFault(t, len(c.Evict))
+			c.EvictFlt.SubstPos = rapid.IntRange(0, c.N-1).Draw(t, "evictsubst")
+		}
 	}
 	return c
 }
@@ -128,9 +147,13 @@ func runCase(t *testing.T) func(Case) pbt.Result {
 				}
 			}()
 			ctx := context.Background()
+			resync, hookFrom := false, 0 // hookFrom: hook calls before the consumer deleted blocks refer to blocks that were verified then
 			doSync := func() (cid.Cid, error) {
 				if c.Entries {
 					return head, s.S.SyncEntries(ctx, p.Info(), head)
+				}
+				if resync {
+					return s.S.SyncAdChain(ctx, p.Info(), dagsync.WithAdsResync(true))
 				}
 				return s.S.SyncAdChain(ctx, p.Info())
 			}
@@ -140,7 +163,7 @@ func runCase(t *testing.T) func(Case) pbt.Result {
 					return false
 				}
 				keys := s.Keys()
-				for _, hc := range s.HookCids(0) {
+				for _, hc := range s.HookCids(hookFrom) {
 					if !keys[hc.String()] {
 						res.Fail = fmt.Sprintf("%s: block hook was called for %s which is not a verified block in the local store", what, hc)
 						return false
@@ -158,7 +181,7 @@ func runCase(t *testing.T) func(Case) pbt.Result {
 				}
 				return true
 			}
-			for fi, f := range c.Faults {
+			faultySync := func(fi int, f fault) bool {
 				// which block will request ordinal f.Ord ask for? requests go newest to oldest, skipping stored blocks
 				var wanted []int
 				for i := c.N - 1; i >= 0; i-- {
@@ -168,7 +191,7 @@ func runCase(t *testing.T) func(Case) pbt.Result {
 				}
 				if f.Ord >= len(wanted) {
 					res.Classes = append(res.Classes, "fault-not-reached")
-					continue
+					return true
 				}
 				target := wanted[f.Ord]
 				sv := served(f, bodies[target], bodies)
@@ -191,7 +214,7 @@ func runCase(t *testing.T) func(Case) pbt.Result {
 				w.Settle()
 				what := fmt.Sprintf("sync %d with %s at request %d (block %d)", fi, wf, f.Ord, target)
 				if !check(what) {
-					return
+					return false
 				}
 				// was the faulty response actually served, and was the block re-requested honestly afterwards?
 				reached, honestLater := false, false
@@ -210,16 +233,38 @@ func runCase(t *testing.T) func(Case) pbt.Result {
 					res.Key += fmt.Sprintf("%s/%s/%d/%d;", h.Name, f.Kind, f.Ord, wf.N*8+wf.Bit)
 					if err == nil && !honestLater {
 						res.Fail = fmt.Sprintf("%s: the served body does not hash to the requested CID but the sync succeeded", what)
-						return
+						return false
 					}
 				}
 				if err != nil {
 					if !c.Entries && (s.Latest(p.ID) != latest0 || s.NEvents() != ev0) {
 						res.Fail = fmt.Sprintf("%s: sync failed (%v) but latest-sync moved or an event was emitted", what, err)
-						return
+						return false
 					}
 				} else if !c.Entries && s.Latest(p.ID) != head {
 					res.Fail = fmt.Sprintf("%s: sync succeeded but latest-sync is %s", what, s.Latest(p.ID))
+					return false
+				}
+				return true
+			}
+			if c.StoreOrd >= 0 {
+				s.ArmWriteFault(c.StoreOrd, c.StoreAfter)
+				_, err := doSync()
+				w.Settle()
+				s.ArmWriteFault(-1, 0)
+				if s.WriteFaults > 0 {
+					res.Classes = append(res.Classes, "store-write-failed")
+					if err == nil {
+						res.Fail = fmt.Sprintf("the destination store failed the write of block request %d after %d bytes, but the sync reported success", c.StoreOrd, c.StoreAfter)
+						return
+					}
+				}
+				if !check(fmt.Sprintf("sync during which the store's writer %d failed after %d bytes", c.StoreOrd, c.StoreAfter)) {
+					return
+				}
+			}
+			for fi, f := range c.Faults {
+				if !faultySync(fi, f) {
 					return
 				}
 			}
@@ -235,6 +280,32 @@ func runCase(t *testing.T) func(Case) pbt.Result {
 			keys := s.Keys()
 			if len(keys) != c.N {
 				res.Fail = fmt.Sprintf("after the honest final sync the store holds %d blocks, the chain has %d", len(keys), c.N)
+				return
+			}
+			if len(c.Evict) == 0 {
+				return
+			}
+			// the consumer drops blocks it has processed; the publisher misbehaves when they are fetched again
+			for _, i := range c.Evict {
+				s.Delete(chain[i])
+			}
+			res.Classes = append(res.Classes, "evict-and-resync")
+			resync, hookFrom = true, s.NHooks()
+			if !faultySync(len(c.Faults), c.EvictFlt) {
+				res.Fail = "after the consumer deleted blocks " + fmt.Sprint(c.Evict) + " from its store: " + res.Fail
+				return
+			}
+			p.ArmFaults(nil, nil)
+			if _, err := doSync(); err != nil {
+				res.Fail = fmt.Sprintf("honest re-sync after eviction failed: %v", err)
+				return
+			}
+			w.Settle()
+			if !check("honest re-sync after eviction") {
+				return
+			}
+			if keys := s.Keys(); len(keys) != c.N {
+				res.Fail = fmt.Sprintf("after the honest re-sync the store holds %d blocks, the chain has %d", len(keys), c.N)
 			}
 		})
 		if res.Key == "" {
@@ -244,7 +315,7 @@ func runCase(t *testing.T) func(Case) pbt.Result {
 	}
 }
 
-const rule = "destination link system with or without TrustedStorage; chain of 1..5 ads or entry chunks whose CIDs use one of 14 multihash functions / digest lengths registered in the binary (sha2-256 full and truncated to 16/20, sha2-512 full and /32, sha1, sha3-256/512, keccak-256, blake3, blake2b-256, dbl-sha2-256, murmur3, identity); 1..3 faulty syncs, each with one body fault (single bit flip, truncation at any length with honest or dishonest Content-Length, 1..64 appended bytes, substitution by another valid block of the chain, empty body, 3 MiB oversized body) at a drawn request ordinal, then an honest sync; plain and discovery transport, segmented or not; oracle after every sync: independent audit of the destination store (recompute the multihash named in each key over the stored value), hook log only holds audited chain blocks, nothing foreign stored, a served body that differs from the honest one fails the sync (unless the client re-requested the block and got the honest body), failed syncs do not move latest-sync nor emit events, and after the honest sync the store is exactly the chain. Non-trivial: the faulty response was actually requested and its bytes differ; distinct by (hash function, fault kind, request ordinal, position)."
+const rule = "destination link system with or without TrustedStorage; chain of 1..5 ads or entry chunks whose CIDs use one of 14 multihash functions / digest lengths registered in the binary (sha2-256 full and truncated to 16/20, sha2-512 full and /32, sha1, sha3-256/512, keccak-256, blake3, blake2b-256, dbl-sha2-256, murmur3, identity); optionally a first sync against the honest publisher during which one of the destination store's writers fails after a drawn number of bytes (what it accepted is what a commit would publish; the sync must fail and nothing unverified may be committed); 1..3 faulty syncs, each with one body fault (single bit flip, truncation at any length with honest or dishonest Content-Length, 1..64 appended bytes, substitution by another valid block of the chain, empty body, 3 MiB oversized body) at a drawn request ordinal, then an honest sync; in a third of the cases the consumer then deletes a drawn subset of the blocks from its store (as indexers do with processed blocks) and the whole chain is synced again (WithAdsResync / SyncEntries), first with a body fault at one of the re-fetched blocks, then honestly; plain and discovery transport, segmented or not; oracle after every sync: independent audit of the destination store (recompute the multihash named in each key over the stored value), hook log only holds audited chain blocks, nothing foreign stored, a served body that differs from the honest one fails the sync (unless the client re-requested the block and got the honest body), failed syncs do not move latest-sync nor emit events, and after the honest sync the store is exactly the chain. Non-trivial: the faulty response was actually requested and its bytes differ; distinct by (hash function, fault kind, request ordinal, position)."
 
 func TestC02_Random(t *testing.T) {
 	pbt.Run(t, pbt.Config{Prop: "C02", Unit: "TestC02_Random", Rule: rule, TrackCurrent: true}, genCase, runCase(t))
